@@ -18,7 +18,8 @@ PROP = "C09"
 EXTRA_PROPS = ["C09compose"]   # composition theorems (see DESIGN.md section 0)
 DRIVER = "C09"
 INTERACTIVE = True
-RULE = ("correspondence: one driver line per scenario (a history of subkey / subkey_for_path / subkeys calls on one root, or one "
+RULE = ("correspondence: one driver line per scenario (a history of subkey / subkey_for_path / subkeys calls on one root or over a family "
+        "of related objects (public_copy twins, re-deserialised copies, cached children), or one "
         "call of master / ckd_priv / ckd_pub / serialize / deserialize / hwif / hparse / bipNN / subpaths / int() / electrum); "
         "distinct = distinct line; non-trivial = the model returns a value (not an exception)")
 PARTIAL = [
@@ -581,6 +582,66 @@ def gen_history(rng, mkroot, nops, public_root, forced=False):
     return ops
 
 
+def fop_tok(f):
+    if f[0] == "C":
+        return "%d@%s" % (f[1], op_tok(f[2]))
+    return "%d@%s;%s" % (f[1], f[0], "|".join(ckey_tok(k) for k in f[2]))
+
+
+def run_fop_impl(roots, f):
+    """one family operation on the real objects; roots = the objects that own a cache universe, in creation order"""
+    if f[1] >= len(roots):
+        return "SKIP"
+    if f[0] == "C":
+        return run_op_impl(roots[f[1]], f[2])
+    o = obj_at(roots[f[1]], f[2])
+    if o is None:
+        return "SKIP"
+    try:
+        new = o.public_copy() if f[0] == "Y" else type(o).deserialize(b"\0\0\0\0" + o.serialize())
+    except Exception as e:
+        return "!" + tag9(e)
+    roots.append(new)
+    return canon(nd_tuple(new))
+
+
+def run_fops_impl(mkroot, fops):
+    try:
+        roots = [mkroot()]
+    except Exception as e:
+        return "!" + tag9(e)
+    return "[" + " ".join(run_fop_impl(roots, f) for f in fops) + "]"
+
+
+def gen_family(rng, mkroot, nops):
+    """random history over a family of related objects, generated while running it on scratch objects"""
+    fops = []
+    try:
+        roots = [mkroot()]
+    except Exception:
+        return fops
+    pool = [rng.choice(IDX[:7]) for _ in range(rng.choice([1, 2, 3]))]
+    for step in range(nops):
+        rid = rng.randrange(len(roots)) if rng.random() < 0.9 else len(roots)      # sometimes a root that does not exist
+        paths = cache_paths(roots[rid], 12) if rid < len(roots) else [()]
+        cpath = () if rng.random() < 0.7 else rng.choice(paths)
+        r = rng.random()
+        if (step == 0 and r < 0.6) or r < 0.14:
+            f = ("Y", rid, cpath)
+        elif r < 0.2:
+            f = ("R", rid, cpath)
+        elif r < 0.85:
+            f = ("C", rid, ("S", cpath, rng.choice(pool), rng.random() < 0.4, rng.choice([None, True, False])))
+        elif r < 0.97:
+            toks = ["%d%s" % (rng.choice(pool), rng.choice(HCH) if rng.random() < 0.35 else "") for _ in range(rng.choice([1, 1, 2]))]
+            f = ("C", rid, ("P", cpath, "/".join(toks) + (".pub" if rng.random() < 0.2 else "")))
+        else:
+            f = ("C", rid, ("K", cpath, "%d-%d%s" % (pool[0], pool[0] + 1, rng.choice(["", "H"]))))
+        fops.append(f)
+        run_fop_impl(roots, f)
+    return fops
+
+
 def mk_btc_root(seed, pub):
     def f():
         m = BTC.keys.bip32_seed(seed)
@@ -705,13 +766,17 @@ def _path_token_impl(v):
     return got
 
 
-def model_cases(rng, tier):
+def _sec_master(rng, tier):
     Q = tier == "quick"
     # 1. master keys
     seeds = [b"", b"\0", bytes(range(16)), bytes(range(64)), b"Bitcoin seed"] + \
             [bytes(rng.getrandbits(8) for _ in range(rng.choice([1, 16, 32, 64, 65, 100]))) for _ in range(40 if Q else 600)]
     for s in seeds:
         yield Case("master " + arg(s), (lambda s=s: call9(lambda: nd_tuple(BTC.keys.bip32_seed(s)))))
+
+
+def _sec_ops(rng, tier):
+    Q = tier == "quick"
     # 2. histories on one root: subkey / subkey_for_path / subkeys in random order, private and public roots
     for n in range(420 if Q else 6000):
         seed = bytes(rng.getrandbits(8) for _ in range(rng.choice([16, 32, 64])))
@@ -719,6 +784,10 @@ def model_cases(rng, tier):
         ops = gen_history(rng, mk_btc_root(seed, pub), rng.choice([1, 2, 3, 5, 8, 12]), pub)
         line = "ops %s %s %s" % (arg(seed), arg(pub), "[" + ",".join(op_tok(o) for o in ops) + "]")
         yield Case(line, (lambda seed=seed, pub=pub, ops=ops: run_ops_impl(mk_btc_root(seed, pub), ops)))
+
+
+def _sec_node_ops(rng, tier):
+    Q = tier == "quick"
     # 2b. histories on explicit nodes with a substituted HMAC: retry rule (I_L >= n, child = 0) and public reduction
     for n in range(100 if Q else 1200):
         sc = rng.choice([1, 2, 3, 4])
@@ -734,6 +803,10 @@ def model_cases(rng, tier):
         line = "node_ops %s %s" % (node_args(chain, depth, fpr, idx, None if pub else k, k),
                                    "[" + ",".join(op_tok(o) for o in ops) + "]")
         yield Case(line, (lambda mk=mk, ops=ops: run_ops_impl(mk, ops, forced=True)))
+
+
+def _sec_ckd(rng, tier):
+    Q = tier == "quick"
     # 3. the two derivation functions of bip32.py on raw arguments
     from pycoin.key.bip32 import subkey_secret_exponent_chain_code_pair as CKDP, subkey_public_pair_chain_code_pair as CKDQ
     raw_i = IDX + [2 ** 31, 2 ** 31 + 1, 2 ** 32 - 1, 2 ** 32, -1, -2 ** 31, -2 ** 31 - 1, 2 ** 31 + 2 ** 24]
@@ -763,6 +836,10 @@ def model_cases(rng, tier):
                 return call9(lambda: (lambda r: (enc_sec((int(r[0][0]), int(r[0][1]))), r[1]))(CKDQ(G, scalar_pair(k), chain, i)))
         yield Case("ckd_priv %s %s %s %s F" % (arg(k), arg(chain), arg(i | (0x80000000 if h else 0)), arg(h)), f1)
         yield Case("ckd_pub %s %s %s" % (arg(k), arg(chain), arg(i)), f2)
+
+
+def _sec_serialize(rng, tier):
+    Q = tier == "quick"
     # 4. serialize on explicit nodes (depth and index boundaries, as_private True/False/None, public and private)
     for n in range(200 if Q else 4000):
         depth = rng.choice([0, 1, 2, 7, 255, 255, rng.getrandbits(8), rng.getrandbits(8), 256, -1, 300])
@@ -775,6 +852,10 @@ def model_cases(rng, tier):
         yield Case("serialize %s %s" % (node_args(chain, depth, fpr, idx, None if pub else k, k), "N" if ap is None else arg(ap)),
                    (lambda chain=chain, depth=depth, fpr=fpr, idx=idx, k=k, pub=pub, ap=ap:
                     call9(lambda: make_node("BTC", 32, chain, depth, fpr, idx, None if pub else k, k).serialize(as_private=ap))))
+
+
+def _sec_node_init(rng, tier):
+    Q = tier == "quick"
     # 4b. the constructor: wrong lengths, both / neither key, out-of-range secret, point at infinity
     cls0 = node_class("BTC", 32)
     for n in range(120 if Q else 2500):
@@ -801,6 +882,10 @@ def model_cases(rng, tier):
                                                secret_exponent=sx, public_pair=pair)))
         yield Case("node_init %s %s %s %s %s %s" % (arg(chain), arg(depth), arg(fpr), arg(idx), "N" if sx is None else arg(sx),
                                                    "N" if pp is None else arg(pp)), impl_init)
+
+
+def _sec_deserialize(rng, tier):
+    Q = tier == "quick"
     # 5. deserialize: valid blobs, every length around 78, malformed key fields
     cls = node_class("BTC", 32)
     for L in list(range(0, 84)) + [100, 156]:
@@ -811,6 +896,10 @@ def model_cases(rng, tier):
         if rng.random() < 0.08:
             data = mangle(rng, data)
         yield Case("deserialize " + arg(data), (lambda data=data: impl_deserialize(cls, data)))
+
+
+def _sec_text(rng, tier):
+    Q = tier == "quick"
     # 6. text form at payload level on every table network and key type: hwif, bipNN_prv, bipNN_pub, bipNN
     for row in ROWS:
         sym, kt, pr_prv, pr_pub, pa_prv, pa_pub, pcodec, qcodec = row
@@ -855,6 +944,10 @@ def model_cases(rng, tier):
             yield Case("parse_hd_data %s %s %s" % (opt_tok(pa_prv), opt_tok(pa_pub), opt_tok(data)),
                        (lambda net=net, kt=kt, text=text:
                         call9(lambda: (lambda r: None if r is None else nd_tuple(r))(getattr(net.parse, "bip%d" % kt)(text)))))
+
+
+def _sec_strings(rng, tier):
+    Q = tier == "quick"
     # 7. strings: int(), "%d", path elements, path ranges
     for s in _int_strings(rng, tier):
         yield Case("py_int " + arg(s2b(s)), (lambda s=s: call9(_pyint, s)))
@@ -873,6 +966,10 @@ def model_cases(rng, tier):
     rps += [rnd_range_path(rng) for _ in range(500 if Q else 12000)]
     for s in rps:
         yield Case("subpaths " + arg(s2b(s)), (lambda s=s: call9(lambda: [s2b(x) for x in subpaths_for_path_range(s, hardening_chars="'pH")])))
+
+
+def _sec_electrum(rng, tier):
+    Q = tier == "quick"
     # 8. Electrum
     E = BTC.keys
     for n in range(150 if Q else 3000):
@@ -904,6 +1001,10 @@ def model_cases(rng, tier):
             cls = type(E.electrum_private(master_private_key=1))
             return call9(lambda: ew_tuple(cls(master_private_key=s, public_pair=None if p is None else (scalar_pair(p) or (None, None)))))
         yield Case("electrum_init %s %s" % ("N" if s is None else arg(s), "N" if p is None else arg(p)), impl_init)
+
+
+def _sec_spec(rng, tier):
+    Q = tier == "quick"
     # 9. implementation against the BIP text (extracted Spec/Bip32Spec.v): chains of extended keys, serialized
     for n in range(120 if Q else 1500):
         seed = bytes(rng.getrandbits(8) for _ in range(rng.choice([16, 32, 64])))
@@ -918,6 +1019,45 @@ def model_cases(rng, tier):
         row = [r for r in ROWS if r[0] == sym and r[1] == 32][0]
         yield Case("spec_derive %s %s %s %s %s" % (arg(row[2]), arg(row[3]), arg(seed), arg(cut), arg(path)),
                    (lambda sym=sym, seed=seed, cut=cut, path=path: impl_chain(sym, seed, cut, path)))
+
+
+def _sec_fops(rng, tier):
+    Q = tier == "quick"
+    # 2c. histories over a FAMILY of related objects: the root, public_copy() twins, re-deserialised copies and cached
+    # children, all flag combinations on a small pool of indices so that twins are asked for the same cache keys
+    for n in range(300 if Q else 5000):
+        seed = bytes(rng.getrandbits(8) for _ in range(rng.choice([16, 32])))
+        pub = rng.random() < 0.15
+        fops = gen_family(rng, mk_btc_root(seed, pub), rng.choice([3, 4, 6, 8, 12, 16]))
+        line = "fops %s %s %s" % (arg(seed), arg(pub), "[" + ",".join(fop_tok(f) for f in fops) + "]")
+        yield Case(line, (lambda seed=seed, pub=pub, fops=fops: run_fops_impl(mk_btc_root(seed, pub), fops)))
+
+
+# sections of the correspondence stream and how many cases each contributes per round: the stream is interleaved so that
+# every prefix of it (a shard of the runner, an escalated run cut off by its time budget) is a proportional mix
+SECTIONS = [("master", _sec_master, 4), ("ops", _sec_ops, 24), ("fops", _sec_fops, 20), ("node_ops", _sec_node_ops, 6),
+            ("ckd", _sec_ckd, 28), ("serialize", _sec_serialize, 16), ("node_init", _sec_node_init, 10),
+            ("deserialize", _sec_deserialize, 50), ("text", _sec_text, 40), ("strings", _sec_strings, 260),
+            ("electrum", _sec_electrum, 14), ("spec", _sec_spec, 6)]
+
+
+def model_cases(rng, tier):
+    import random as _random
+    base = rng.getrandbits(64)
+    gens = [(iter(f(_random.Random("%d/%s" % (base, name)), tier)), w) for name, f, w in SECTIONS]
+    while gens:
+        alive = []
+        for g, w in gens:
+            done = False
+            for _ in range(w):
+                try:
+                    yield next(g)
+                except StopIteration:
+                    done = True
+                    break
+            if not done:
+                alive.append((g, w))
+        gens = alive
 
 
 def impl_chain(sym, seed, cut, path):
@@ -1247,6 +1387,106 @@ def chk_cache(seed, pub, calls):
     return None
 
 
+def fresh_copy(o):
+    """a brand-new object with the fields of o (constructor call: no cache, nothing shared)"""
+    kw = dict(chain_code=o.chain_code(), depth=o.tree_depth(), parent_fingerprint=o.parent_fingerprint(), child_index=o.child_index())
+    if o.secret_exponent() is not None:
+        kw["secret_exponent"] = o.secret_exponent()
+    else:
+        pp = o.public_pair()
+        kw["public_pair"] = (int(pp[0]), int(pp[1]))
+    return type(o)(**kw)
+
+
+def _outcome(f):
+    try:
+        return canon(nd_tuple(f()))
+    except Exception as e:
+        return "!" + tag9(e)
+
+
+def fops_to_json(fops):
+    out = []
+    for f in fops:
+        if f[0] == "C":
+            op = f[2]
+            out.append(["C", f[1], [op[0], [list(k) for k in op[1]]] + list(op[2:])])
+        else:
+            out.append([f[0], f[1], [list(k) for k in f[2]]])
+    return out
+
+
+def fops_from_json(js):
+    out = []
+    for f in js:
+        if f[0] == "C":
+            op = f[2]
+            out.append(("C", f[1], tuple([op[0], tuple(tuple(k) for k in op[1])] + list(op[2:]))))
+        else:
+            out.append((f[0], f[1], tuple(tuple(k) for k in f[2])))
+    return out
+
+
+def chk_family(seed, pub, fops):
+    """a history over a family of related objects (root, public_copy() twins, re-read copies, cached children): every answer
+    equals the answer of a brand-new object with the same fields; a public-only object refuses hardened children and never
+    hands out a secret, whatever was asked of its relatives before"""
+    roots = [mk_btc_root(seed, pub)()]
+    for step, f in enumerate(fops):
+        if f[1] >= len(roots):
+            continue
+        if f[0] != "C":
+            o = obj_at(roots[f[1]], f[2])
+            if o is None:
+                continue
+            try:
+                new = o.public_copy() if f[0] == "Y" else type(o).deserialize(b"\0\0\0\0" + o.serialize())
+            except ValueError:
+                continue
+            want = pub_view(nd_tuple(o)) if f[0] == "Y" else nd_tuple(o)
+            if nd_tuple(new) != want:
+                return {"kind": "copy-differs", "step": step, "op": f[0]}
+            roots.append(new)
+            continue
+        op = f[2]
+        o = obj_at(roots[f[1]], op[1])
+        if o is None:
+            continue
+        fresh = fresh_copy(o)
+        is_pub = o.secret_exponent() is None
+        if op[0] == "S":
+            _, _, i, h, ap = op
+            rap = (not is_pub) if ap is None else ap
+            want = _outcome(lambda: fresh._subkey(i, h, rap))
+            got_obj = []
+            got = _outcome(lambda: got_obj.append(o.subkey(i, h, ap)) or got_obj[0])
+            desc = [i, h, ap]
+        elif op[0] == "P":
+            want = _outcome(lambda: fresh.subkey_for_path(op[2]))
+            got_obj = []
+            got = _outcome(lambda: got_obj.append(o.subkey_for_path(op[2])) or got_obj[0])
+            desc = op[2]
+            h = None
+        else:
+            def all_of(x):
+                res, err = [], "N"
+                try:
+                    for k in x.subkeys(op[2]):
+                        res.append(nd_tuple(k))
+                except Exception as e:
+                    err = "!" + tag9(e)
+                return "(%s %s)" % (canon(res), err)
+            want, got, got_obj, desc, h = all_of(fresh), all_of(o), [], op[2], None
+        if got != want:
+            return {"kind": "answer-differs-from-fresh-object", "step": step, "object": [f[1], [list(k) for k in op[1]]],
+                    "receiver_is_public": is_pub, "call": desc, "got": got[:300], "fresh": want[:300]}
+        if is_pub and got_obj and got_obj[0].secret_exponent() is not None:
+            return {"kind": "public-object-returned-a-secret", "step": step, "call": desc}
+        if is_pub and op[0] == "S" and h and got != "!E_OTHER":
+            return {"kind": "hardened-derived-from-public", "step": step, "call": desc, "got": got[:200]}
+    return None
+
+
 def chk_spellings(seed, toks, pub):
     """toks: list of (index, hardened): the three spellings give the same node; a range path expands to the product"""
     m = BTC.keys.bip32_seed(seed)
@@ -1415,6 +1655,21 @@ def prop_cases(rng, tier):
         calls = [rng.choice(pool) for _ in range(rng.randint(1, 14))]
         inp = {"seed": seed.hex(), "pub": pub, "calls": [list(c) for c in calls]}
         yield PropCase("cache", inp, (lambda seed=seed, pub=pub, calls=calls: chk_cache(seed, pub, calls)))
+    # families: fixed twin scenarios (every ordered pair of calls on a private node and its public copy), then random ones
+    twin_calls = [(rid, (i, h, ap)) for rid in (0, 1) for i in (1, 5) for h in (False, True) for ap in (None, True, False)]
+    seed0 = bytes(range(16))
+    for a in twin_calls:
+        for b2 in twin_calls:
+            if a[1][0] != b2[1][0] or a == b2:
+                continue
+            fops = [("Y", 0, ()), ("C", a[0], ("S", ()) + a[1]), ("C", b2[0], ("S", ()) + b2[1])]
+            yield PropCase("family", {"seed": seed0.hex(), "pub": False, "fops": fops_to_json(fops)},
+                           (lambda fops=fops: chk_family(seed0, False, fops)))
+    for n in range(250 if Q else 6000):
+        seed, pub = _seed(rng), rng.random() < 0.15
+        fops = gen_family(rng, mk_btc_root(seed, pub), rng.choice([3, 5, 8, 12, 16]))
+        yield PropCase("family", {"seed": seed.hex(), "pub": pub, "fops": fops_to_json(fops)},
+                       (lambda seed=seed, pub=pub, fops=fops: chk_family(seed, pub, fops)))
     for n in range(200 if Q else 2000):
         seed = _seed(rng)
         toks = [(rng.choice(IDX) if rng.random() < 0.6 else rng.getrandbits(31), rng.random() < 0.5) for _ in range(rng.randint(1, 6))]
@@ -1467,6 +1722,8 @@ def replay_input(check, inp):
         return chk_metadata(b(inp["seed"]), inp["p1"], inp["i"], inp["h"], inp["pub"])
     if check == "text_roundtrip":
         return chk_text_roundtrip(inp["net"], inp["kt"], b(inp["seed"]), inp["path"], inp["ap"])
+    if check == "family":
+        return chk_family(b(inp["seed"]), inp["pub"], fops_from_json(inp["fops"]))
     if check == "cache":
         return chk_cache(b(inp["seed"]), inp["pub"], [tuple(c) for c in inp["calls"]])
     if check == "spellings":
@@ -1494,7 +1751,15 @@ def search(rng, tier, disagreements, known_ids):
         toks = d["case"].split(" ")
         fn = toks[0]
         try:
-            if fn in ("ops", "master", "spec_derive"):
+            if fn in ("ops", "fops"):
+                seed_f = bytes.fromhex(toks[1][1:])
+                for i in (0, 1, 5):
+                    for first in (("C", 0, ("S", (), i, True, False)), ("C", 0, ("S", (), i, False, None)), ("C", 1, ("S", (), i, False, True))):
+                        for second in (("C", 1, ("S", (), i, True, None)), ("C", 1, ("S", (), i, False, True)), ("C", 0, ("S", (), i, False, None))):
+                            fops = [("Y", 0, ()), first, second]
+                            cands.append(PropCase("family", {"seed": seed_f.hex(), "pub": False, "fops": fops_to_json(fops)},
+                                                  (lambda seed_f=seed_f, fops=fops: chk_family(seed_f, False, fops))))
+            if fn in ("ops", "fops", "master", "spec_derive"):
                 seed = bytes.fromhex(toks[3][1:] if fn == "spec_derive" else toks[1][1:])
                 for sym, kt in (("BTC", 32), ("XTN", 32), ("BTC", 49)):
                     for p1, p2 in (("", "0"), ("0H", "1/2"), ("1", "16777216/2147483647"), ("44'/0'", "0/5")):
